@@ -145,6 +145,30 @@ def h_build(ctx, host, n):
             ctx.check("built-url-accessors-only-ValueError-TypeError", ok_type(rc), rc[1])
 
 
+def h_noarg(ctx):
+    """argument-count errors of the query methods are ValueError/TypeError (finite, concrete)"""
+    P = ctx.P
+    u = P.URL("http://h/?a=1")
+    for nm in ("with_query", "extend_query", "update_query"):
+        for f in (lambda: getattr(u, nm)(), lambda: getattr(u, nm)(**{}), lambda: getattr(u, nm)("a", "b"), lambda: getattr(u, nm)({"a": 1}, b=2)):
+            r = call(f)
+            ctx.check("only-ValueError-TypeError:" + nm, r[0] == "exc" and isinstance(r[2], (ValueError, TypeError)), (nm, r[:2]))
+    ctx.observe("done", True)
+
+
+def h_build_path(ctx, skeleton):
+    """build(host=..., path=<rootless or dotted text>)"""
+    P = ctx.P
+    t = U.text(ctx, skeleton)
+    for kw in (dict(scheme="http", host="h"), dict(scheme="", host=""), dict(scheme="x", authority="u@h:1")):
+        r = call(lambda: P.URL.build(path=t, **kw))
+        ctx.observe("build:" + kw.get("host", "") + kw.get("authority", ""), outcome(r))
+        ctx.check("only-ValueError-TypeError:build(path)", ok_type(r), r[1])
+        if r[0] == "ok":
+            st = call(str, r[1])
+            ctx.check("built-url-can-be-stringified", st[0] == "ok", st[1])
+
+
 def h_build_authority(ctx, n):
     P = ctx.P
     a = ctx.str("a", n)
@@ -166,25 +190,28 @@ import _testcapi
 from yarl import _quoting_c as qc
 kind, cfg, cps = sys.argv[2], json.loads(sys.argv[3]), json.loads(sys.argv[4])
 f = getattr(qc, kind)(**cfg)
-text = "".join(map(chr, cps)) + "\u00e9" * 3000
-good = f(text)
 bad = []
-for k in range(0, 24):
-    exc = None
-    _testcapi.set_nomemory(k, k + 1)
-    try:
+# three paddings: text that is rewritten, canonical escapes that are kept (the "unchanged" return), plain safe text
+for pad in ("\u00e9" * 3000, "a%20b/" * 3000, "abcdefgh" * 2500):
+    text = "".join(map(chr, cps)) + pad
+    good = f(text)
+    f(pad)
+    for k in range(0, 24):
+        exc = None
+        _testcapi.set_nomemory(k, k + 1)
         try:
-            f(text)
-        except MemoryError:
-            pass
-        except BaseException as e:
-            exc = type(e).__name__
-    finally:
-        _testcapi.remove_mem_hooks()
-    if exc is not None:
-        bad.append([k, exc])
-    if f(text) != good:
-        bad.append([k, "later call returned a different result"])
+            try:
+                f(text)
+            except MemoryError:
+                pass
+            except BaseException as e:
+                exc = type(e).__name__
+        finally:
+            _testcapi.remove_mem_hooks()
+        if exc is not None:
+            bad.append([k, exc])
+        if f(text) != good:
+            bad.append([k, "later call returned a different result"])
 print(json.dumps(bad))
 """
 
@@ -280,6 +307,10 @@ def families(tier):
         fams.append(Family("build/host=%s" % host, h_build, dict(host=host, n=1 if q else 2)))
     for n in range(0, (3 if q else 4) + 1):
         fams.append(Family("build-authority/n=%d" % n, h_build_authority, dict(n=n)))
+    fams.append(Family("query-methods-argument-count", h_noarg, {}))
+    DOT = ("in", "./a")
+    for nm, sk in (("dots2", [DOT, DOT]), ("dots3", [DOT, DOT, DOT]), ("free2", [None, None])) + (() if q else (("dots4", [DOT, DOT, DOT, DOT]),)):
+        fams.append(Family("build-path/%s" % nm, h_build_path, dict(skeleton=sk)))
     cfgs = [("_Quoter", dict()), ("_Quoter", dict(safe="@:", protected="/+")), ("_Quoter", dict(safe="?/:@", qs=True, requote=False))]
     for bs in (1, 2, 3):
         for kind, cfg in cfgs:
